@@ -503,6 +503,9 @@ class EngineTheory(Theory):
             cname = 'engine.YP.%s' % meth
             if cname in ex.reg:
                 return ex.apply_contract(e, ex.reg[cname], [base] + args, st)
+            r = ex.try_inline(e, 'YP.%s' % meth, [base] + args, st)
+            if r is not None:
+                return r
             raise OutOfSubset('no contract for %s' % cname, e)
         if base.sort == 'Answer':
             cname = 'engine.Answer.%s' % meth
